@@ -2,7 +2,7 @@ CONSTANTS
   MaxBlocks = 14
   MaxDepth = 4
   Level = 2
-  EnabledKinds = {"para", "atx", "setext", "hr", "fence", "code", "def", "quote", "list"}
+  EnabledKinds = {"para", "atx", "setext", "hr", "fence", "code", "def", "quote", "list", "table", "html"}
 INIT Init
 NEXT Next
 INVARIANT TypeOK
